@@ -19,7 +19,7 @@ Proof.
   nra.
 Qed.
 
-Theorem rms_bound_forward_proof : forall cf qtbl samples,
+Theorem rms_bound_forward_proof : matrix_accuracy_fact -> forall cf qtbl samples,
   cfg_ok cf -> length qtbl = 64%nat -> length samples = 64%nat ->
   (forall q, In q qtbl -> (1 <= q <= 65535)%Z) ->
   Forall (fun s => (0 <= s <= maxsample cf)%Z) samples ->
@@ -29,14 +29,14 @@ Theorem rms_bound_forward_proof : forall cf qtbl samples,
       norm2 64 (fun i => y i - vecZ (convsamp cf samples) i)
         <= (qnorm qtbl + e1_bound cf + e2) * (qnorm qtbl + e1_bound cf + e2).
 Proof.
-  intros cf qtbl samples Hok Hlq Hls Hq HS.
+  intros Hacc cf qtbl samples Hok Hlq Hls Hq HS.
   destruct (block_coef_error_proof cf qtbl samples Hok Hlq Hls Hq HS) as [coefs [Hfw HF2]].
   exists coefs. split; [exact Hfw|]. intros y e2 He2 Hy.
   set (data := convsamp cf samples) in *.
   assert (Hld : length data = 64%nat) by (unfold data, convsamp; rewrite map_length; exact Hls).
   assert (Hin : Forall (inb (centersample cf)) data) by (apply convsamp_in_range; assumption).
   assert (HlF : length (fdct_islow cf data) = 64%nat) by (apply fdct_length; exact Hld).
-  pose proof (fdct_accuracy_proof cf data Hok Hld Hin) as He1.
+  pose proof (fdct_accuracy_proof Hacc cf data Hok Hld Hin) as He1.
   assert (Hsum0 : 0 <= rsum 64 (fun k => (vecZ qtbl k / 2) * (vecZ qtbl k / 2))) by (apply rsum_nonneg; intros; nra).
   apply (rms_bound_dct_proof (vecZ data) (fun k => vecZ (fdct_islow cf data) k / 8) (fun k => vecZ coefs k * vecZ qtbl k) y
            (fun k => vecZ qtbl k / 2) (e1_bound cf) e2 (qnorm qtbl)).
